@@ -15,7 +15,7 @@ def plan(tier, seed):
         nm = 'ScatLayerj1_rot_f' if rot else 'ScatLayerj1_f'
         for col in (False, True):
             gs.append(Group('%s[colour=%s]' % (nm, col), S.g_scat_j1, (rot, col, True), functions=[(SLk, nm + '.forward'), (SLk, nm + '.backward')],
-                            replay=rp('scat_grad', order=1, colour=col, biort='near_sym_b_bp' if rot else 'near_sym_a')))
+                            replay=(rp('scat_grad', order=1, colour=col, biort='near_sym_b_bp') if rot else rp('scat_grad_ref', colour=col))))
         nm2 = 'ScatLayerj2_rot_f' if rot else 'ScatLayerj2_f'
         gs.append(Group('%s.backward' % nm2, S.g_scat_j2_backward, (rot,), functions=[(SLk, nm2 + '.forward'), (SLk, nm2 + '.backward')],
                         replay=rp('scat_grad', order=2, biort='near_sym_b_bp' if rot else 'near_sym_a')))
@@ -34,9 +34,12 @@ def plan(tier, seed):
             for col in (False, True):
                 jobs.append({'fn': 'scat_grad', 'cfg': {'order': o, 'biort': b, 'colour': col}, 'grid': {'x': [0, 1] if dense else [0]}})
                 jobs.append({'fn': 'scat_grad', 'cfg': {'order': o, 'biort': b, 'colour': col, 'zero_image': True}, 'grid': {'x': [0]}})
+    for b in ('near_sym_a', 'near_sym_b'):
+        for col in (False, True):
+            jobs.append({'fn': 'scat_grad_ref', 'cfg': {'biort': b, 'colour': col}, 'grid': {'x': [0, 1] if dense else [0]}})
     return {
         'groups': gs,
-        'native': [('bounded.py', [write_jobs('C09', jobs), seed], 'bounded: back-propagated gradient vs central finite differences (float64), finiteness at the all-zero image, all layer configurations')],
+        'native': [('bounded.py', [write_jobs('C09', jobs), seed], 'bounded: back-propagated gradient vs central finite differences (float64), finiteness at the all-zero image, all layer configurations; first-order layers vs autograd of an independent composition over bias / image-scale regimes down to 1e-9')],
         'level': 'other', 'trusted_base': TRUSTED,
         'assumptions': ASSUMPTIONS + [
             'A-autograd; decomposition of the gradient obligation: (i) every argument the real backward hands to an inverse DTCWT stage equals the true cotangent of the corresponding forward '
